@@ -15,7 +15,13 @@ fn e(l: u64, s: &[usize], t: &[usize]) -> PEdge<u64> {
     PEdge { l, s: s.to_vec(), t: t.to_vec() }
 }
 
-fn corpus() -> Vec<(&'static str, PL)> {
+/// built once per process
+fn corpus() -> &'static Vec<(&'static str, PL)> {
+    static C: std::sync::OnceLock<Vec<(&'static str, PL)>> = std::sync::OnceLock::new();
+    C.get_or_init(corpus_build)
+}
+
+fn corpus_build() -> Vec<(&'static str, PL)> {
     let chain = |n: usize, conflict_at: Option<usize>| -> PL {
         let mut w = vec![0u32; n];
         if let Some(k) = conflict_at {
